@@ -117,6 +117,12 @@ func isOnCurve(c elliptic.Curve, x, y *big.Int) bool {
 	if x == nil || y == nil {
 		return false
 	}
+	// only canonical field elements: a negative value or one >= p that is merely congruent to a valid
+	// coordinate is a second encoding of the same point
+	p := c.Params().P
+	if x.Sign() < 0 || y.Sign() < 0 || x.Cmp(p) >= 0 || y.Cmp(p) >= 0 {
+		return false
+	}
 	return c.IsOnCurve(x, y)
 }
 
